@@ -269,6 +269,71 @@ def run_part_a(run, e1, cell, rng, tier):
                                    "want": "one-verdict", "proxy": bool(proxy_line)})
 
 
+# ---- Part A2: chunked bodies of requests that are within every limit ---------------------------
+
+A2_CFGS = [
+    {"limit_request_fields": 1, "limit_request_field_size": 40},
+    {"limit_request_fields": 2, "limit_request_field_size": 100},
+    {"limit_request_fields": 10, "limit_request_field_size": 100},
+    {"limit_request_fields": 3, "limit_request_field_size": 1000},
+    {"limit_request_fields": 3},
+    {"limit_request_line": 30, "limit_request_fields": 1, "limit_request_field_size": 30},
+    {},
+]
+
+
+def a2_judge(e1, cs, stream, cuts, body):
+    obs = e1.observe(e1.make_cfg(**cs), gen.cut(stream, cuts))
+    r0 = obs["reqs"][0] if obs["reqs"] else None
+    ok = r0 is not None and "body_error" not in r0 and r0.get("body") == body and len(obs["reqs"]) == 2
+    return ok, obs
+
+
+def run_part_a2(run, e1, cs, rng):
+    """The limits speak about the request line, the field lines, the chunk-size lines and the trailer block - not about chunk
+    data: a chunked request whose protocol elements are all tiny is within all limits however much data its chunks carry and
+    however the data shares reads with the lines around it."""
+    cap = effective(cs)[3]
+    base = min(cap, 30000)
+    shapes = [[base + 50], [3, 2 * base + 1, 1], [base - 1, base, base + 1], [1, 1, base * 3], [8192, 8192, 5]]
+    for sizes in shapes:
+        for ext in (b"", b";x=1"):
+            chunks = [bytes([97 + (i % 26)]) * n for i, n in enumerate(sizes) if n > 0]
+            body = b"".join(chunks)
+            framed = b"".join(b"%x%s\r\n" % (len(c), ext) + c + b"\r\n" for c in chunks) + b"0\r\n\r\n"
+            head = b"POST /p HTTP/1.1\r\nTransfer-Encoding: chunked\r\n\r\n"
+            stream = head + framed + gen.marker(1, b"end")
+            nn = len(stream)
+            segs = [[], [len(head)], list(range(400, nn, 400)), list(range(8192, nn, 8192)),
+                    sorted(rng.sample(range(1, nn), 3)), sorted(rng.sample(range(1, nn), 9))]
+            # a read boundary right behind every chunk-size line, and one in front of every chunk's closing CRLF
+            pos, lines_end, data_end = len(head), [], []
+            for c in chunks:
+                pos += len(b"%x%s\r\n" % (len(c), ext))
+                lines_end.append(pos)
+                pos += len(c)
+                data_end.append(pos)
+                pos += 2
+            segs.append(sorted(set(lines_end)))
+            segs.append(sorted(set(data_end)))
+            for cuts in segs:
+                cuts = [c for c in cuts if 0 < c < nn]
+                run.case(("A2", json.dumps(cs, sort_keys=True), tuple(sizes), ext.decode(), tuple(cuts[:3]), len(cuts)))
+                ok, obs = a2_judge(e1, cs, stream, cuts, body)
+                run.count("A2_chunked_within_limits_cases")
+                if ok:
+                    run.count("A2_served_in_full")
+                else:
+                    r0 = obs["reqs"][0] if obs["reqs"] else {}
+                    run.violation("within-limits-rejected/chunk-data-beside-its-size-line",
+                                  "chunked request (request line 16 bytes, one 26-byte field, chunk-size lines of <= %d bytes, chunks of %s "
+                                  "bytes) not served in full under cfg=%s cuts=%s: terminal=%s body_error=%s body_len=%s requests=%d" % (
+                                      len(b"%x%s" % (max(sizes), ext)), sizes, cs, cuts[:6], obs["terminal"], r0.get("body_error"),
+                                      len(r0.get("body") or b""), len(obs["reqs"])),
+                                  {"part": "A2", "cfg": cs, "stream": stream.hex() if nn < 40000 else None, "sizes": sizes,
+                                   "ext": ext.decode(), "cuts": cuts})
+
+
 # ---- Part B ---------------------------------------------------------------------------------
 
 def endless(prefix, unit, piece, stop_at):
@@ -402,6 +467,9 @@ def shard(sh):
             c = cells[0]
             run.sample({"part": "A", "cfg": c[0], "element": c[1], "offset": c[2], "line_len": c[3],
                         "fields": c[4], "longest_field": c[5]})
+    elif sh["kind"] == "A2":
+        run_part_a2(run, e1, sh["cfg"], rng)
+        run.sample({"part": "A2", "cfg": sh["cfg"], "buffer_cap": effective(sh["cfg"])[3]}, cap=1)
     elif sh["kind"] == "C":
         from vlib import e2_worker as e2
         for cell in sh["cells"]:
@@ -423,6 +491,8 @@ def main(tier, seed):
                 "A_cut_between_cr_lf_of_request_line", "B_floods_body_left_unread", "C_worker_floods_body_left_unread")
     q = tier == "quick"
     shards = [{"kind": "A", "sub": i, "of": 16, "seed": seed, "tier": tier} for i in range(16)]
+    shards += [{"kind": "A2", "cfg": cs, "sub": i, "seed": seed, "tier": tier} for i, cs in enumerate(A2_CFGS)]
+    run.require("A2_served_in_full")
     rng = rng_for(seed, "c12-main")
     for name in FLOODS:
         for cfgset in FLOOD_CFGS:
@@ -476,6 +546,15 @@ def replay(path):
         run_part_b(run, e1, c["flood"], c["cfg"], c["piece"], c["factor"], unread=c.get("unread", False))
     elif c["part"] == "C":
         run = replay_c(c)
+    elif c["part"] == "A2":
+        sizes, ext = c["sizes"], c["ext"].encode()
+        chunks = [bytes([97 + (i % 26)]) * n for i, n in enumerate(sizes) if n > 0]
+        stream = b"POST /p HTTP/1.1\r\nTransfer-Encoding: chunked\r\n\r\n" + \
+            b"".join(b"%x%s\r\n" % (len(x), ext) + x + b"\r\n" for x in chunks) + b"0\r\n\r\n" + gen.marker(1, b"end")
+        ok, obs = a2_judge(e1, c["cfg"], stream, c["cuts"], b"".join(chunks))
+        print("served in full=%s terminal=%s" % (ok, obs["terminal"]))
+        if not ok:
+            run.violation(rec["mechanism"], rec["summary"], c)
     else:
         cfg = e1.make_cfg(**c["cfg"])
         stream = bytes.fromhex(c["stream"])
